@@ -859,36 +859,50 @@ impl<'a> MetaStoreUpdate<'a> {
                 if chunk.role_position == ChunkRolePosition::SecondChunkMaster {
                     return Ok(());
                 }
+                // When the other half has failed before, both masters are on this proxy
+                // and both of them move.
+                let both_moved = chunk.role_position == ChunkRolePosition::FirstChunkMaster;
                 chunk.role_position = ChunkRolePosition::SecondChunkMaster;
 
-                for migrating_slot_range in chunk.migrating_slots[0].iter_mut() {
-                    migrating_slot_range.meta.epoch = new_epoch;
-                    peer_position.insert((
-                        migrating_slot_range.meta.src_chunk_index,
-                        migrating_slot_range.meta.src_chunk_part,
-                    ));
-                    peer_position.insert((
-                        migrating_slot_range.meta.dst_chunk_index,
-                        migrating_slot_range.meta.dst_chunk_part,
-                    ));
+                for (part, migrating_slots) in chunk.migrating_slots.iter_mut().enumerate() {
+                    if part != 0 && !both_moved {
+                        continue;
+                    }
+                    for migrating_slot_range in migrating_slots.iter_mut() {
+                        migrating_slot_range.meta.epoch = new_epoch;
+                        peer_position.insert((
+                            migrating_slot_range.meta.src_chunk_index,
+                            migrating_slot_range.meta.src_chunk_part,
+                        ));
+                        peer_position.insert((
+                            migrating_slot_range.meta.dst_chunk_index,
+                            migrating_slot_range.meta.dst_chunk_part,
+                        ));
+                    }
                 }
                 break;
             } else if chunk.proxy_addresses[1] == failed_proxy_address {
                 if chunk.role_position == ChunkRolePosition::FirstChunkMaster {
                     return Ok(());
                 }
+                let both_moved = chunk.role_position == ChunkRolePosition::SecondChunkMaster;
                 chunk.role_position = ChunkRolePosition::FirstChunkMaster;
 
-                for migrating_slot_range in chunk.migrating_slots[1].iter_mut() {
-                    migrating_slot_range.meta.epoch = new_epoch;
-                    peer_position.insert((
-                        migrating_slot_range.meta.src_chunk_index,
-                        migrating_slot_range.meta.src_chunk_part,
-                    ));
-                    peer_position.insert((
-                        migrating_slot_range.meta.dst_chunk_index,
-                        migrating_slot_range.meta.dst_chunk_part,
-                    ));
+                for (part, migrating_slots) in chunk.migrating_slots.iter_mut().enumerate() {
+                    if part != 1 && !both_moved {
+                        continue;
+                    }
+                    for migrating_slot_range in migrating_slots.iter_mut() {
+                        migrating_slot_range.meta.epoch = new_epoch;
+                        peer_position.insert((
+                            migrating_slot_range.meta.src_chunk_index,
+                            migrating_slot_range.meta.src_chunk_part,
+                        ));
+                        peer_position.insert((
+                            migrating_slot_range.meta.dst_chunk_index,
+                            migrating_slot_range.meta.dst_chunk_part,
+                        ));
+                    }
                 }
                 break;
             }
